@@ -235,7 +235,7 @@ static void exec(const std::string &line) {
     N->SetMsgHandler(onMsg);
     openAndSettle(*N, 700);
     if (!N->isOpen()) C.fail("harness:not-open", "node did not open");
-    if (nSlots == 0) nSlots = 5;
+    if (nSlots == 0) nSlots = N->slots();   // library default: the property is parametric in the slot count
     if (N->slots() != nSlots) C.fail("harness:slots", "MaxN2kCANMsgs=%u wanted %u", N->slots(), nSlots);
     ref.clear(); tpHeld.clear(); overloaded = caseOtherDst = caseSupersede = false; caseDeliv = caseFPDeliv = caseInterleaved = caseDiscard = caseFrames = 0;
     got.clear();
